@@ -12,6 +12,7 @@ CONSTANTS
  AllowWith = TRUE
  AllowVars = FALSE
  MaxUses = 1
+ OldWith = FALSE
  RestoreOwn = TRUE
-INVARIANTS FlagAsMeant StackDepth CaptureFree NoCollision PublicUnchanged NoReserved WithOwn
+INVARIANTS FlagAsMeant StackDepth CaptureFree NoCollision PublicUnchanged NoReserved WithOwn WithCross
 CHECK_DEADLOCK FALSE
